@@ -389,11 +389,6 @@ Qed.
 
 Corollary work_fuel_independent f1 f2 w : mu w < f1 -> mu w < f2 -> work f1 w = work f2 w.
 Proof. intros H1 H2. apply work_answers_agree; apply work_terminates; assumption. Qed.
-Print Assumptions work_fuel_monotone.
-Print Assumptions work_answers_agree.
-Print Assumptions wstep_decreases.
-Print Assumptions work_terminates.
-Print Assumptions work_fuel_independent.
 
 (* ================================================================================================================== *)
 (* PART 3: well-scoped bodies never make the worklist fail on a break / continue                                        *)
@@ -522,7 +517,6 @@ Proof.
   destruct (wstep w) as [|fin news c' nt| |] eqn:WS; try congruence; [split; discriminate|].
   apply IH. eapply wstep_sinv; eassumption.
 Qed.
-Print Assumptions work_scoped_no_break_error.
 
 Lemma work_never_label_error tk b : forall f w, work f w <> ErrLabel tk b.
 Proof.
@@ -560,12 +554,10 @@ Proof.
   destruct (work f (w0 body)) as [w| | | |tk b] eqn:E; try congruence; [now exists w|].
   exfalso. exact (work_never_label_error tk b _ _ E).
 Qed.
-Print Assumptions work_total.
 
 Theorem emit_graph_total body :
   scoped None None body -> mu_body body < work_fuel -> exists w, emit_graph body = Ok w.
 Proof. intros HS HF. rewrite emit_graph_eq. apply work_total; assumption. Qed.
-Print Assumptions emit_graph_total.
 
 (* without the size bound: the graph is built or the fuel ran out - never a break / continue / label failure *)
 Theorem emit_graph_scoped_cases body :
@@ -576,13 +568,11 @@ Proof.
   destruct (work work_fuel (w0 body)) as [w| | | |tk b] eqn:E; try congruence; [left; now exists w|right; reflexivity|].
   exfalso. exact (work_never_label_error tk b _ _ E).
 Qed.
-Print Assumptions emit_graph_scoped_cases.
 
 (* the fuel constant is irrelevant for the bodies that fit: any larger fuel gives the same graph *)
 Theorem emit_graph_fuel_irrelevant body f :
   mu_body body < work_fuel -> mu_body body < f -> work f (w0 body) = emit_graph body.
 Proof. intros H1 H2. rewrite emit_graph_eq. apply work_fuel_independent; rewrite mu_w0; assumption. Qed.
-Print Assumptions emit_graph_fuel_irrelevant.
 
 (* ================================================================================================================== *)
 (* PART 4b: the size of every accepted body is bounded by the number of tokens of the source                            *)
@@ -1189,8 +1179,6 @@ Proof.
   - assert (M : movs_only (ph st)) by (eapply parse_tops_movs; [exact E|reflexivity]). unfold movs_only in M. rewrite M. constructor.
 Qed.
 End PROG.
-Print Assumptions toks_all.
-Print Assumptions parse_program_fit.
 
 (* ================================================================================================================== *)
 (* PART 5: scripts, programs, source texts                                                                             *)
@@ -1229,7 +1217,6 @@ Proof.
   intros HS HF. apply answered_iff. destruct (emit_graph_total body HS HF) as (w & E). unfold emit_script. rewrite E.
   apply render_chunks_answered.
 Qed.
-Print Assumptions emit_script_total.
 
 (* the bodies of a program fit the fuel of the worklist *)
 Definition bodies_fit (p : program) : Prop := Forall (fun b => mu_body b < work_fuel) (bodies_of (tops p)).
@@ -1254,7 +1241,6 @@ Proof.
   - left. apply err_of_none. exact A.
   - right. exists tk, b. apply err_of_label. exact A.
 Qed.
-Print Assumptions emit_program_total.
 
 Section SOURCE.
 Variable hl hd hs : N -> bool.
@@ -1311,9 +1297,6 @@ Proof.
     destruct (compile_total optimize mpath src FITS) as [(out & E)|(e & E)]; congruence.
 Qed.
 End SOURCE.
-Print Assumptions compile_never_panics_nor_parser_fuel.
-Print Assumptions compile_total.
-Print Assumptions compile_emit_error_only_oversize.
 
 (* ================================================================================================================== *)
 (* PART 5b: premise-free on source texts: every source of fewer than 10000 tokens is answered                           *)
@@ -1357,9 +1340,6 @@ Proof.
   destruct (compile_total_tokens optimize mpath src LT) as [(out & E)|(e & E)]; congruence.
 Qed.
 End SOURCE_TOKENS.
-Print Assumptions accepted_bodies_fit_tokens.
-Print Assumptions compile_total_tokens.
-Print Assumptions compile_emit_error_needs_many_tokens.
 
 (* ================================================================================================================== *)
 (* PART 6: a cruder bound a reader can check at a glance: three times the number of nodes of the syntax tree            *)
@@ -1436,7 +1416,6 @@ Qed.
 
 Theorem mu_body_le_nodes body : mu_body body <= 1 + 3 * nodes body.
 Proof. unfold mu_body. pose proof (wts_le_nodes body). lia. Qed.
-Print Assumptions mu_body_le_nodes.
 
 Local Transparent work_fuel.
 Lemma work_fuel_value : work_fuel = 10000. Proof. reflexivity. Qed.
@@ -1449,7 +1428,6 @@ Corollary emit_graph_total_small body :
 Proof.
   intros HS HN. apply emit_graph_total; [exact HS|]. pose proof (mu_body_le_nodes body). rewrite work_fuel_prod. lia.
 Qed.
-Print Assumptions emit_graph_total_small.
 
 (* ================================================================================================================== *)
 (* PART 7: examples: the hypotheses are satisfiable; the size bound is not an artefact of the proof                      *)
@@ -1507,8 +1485,6 @@ Proof.
   split; [exact S|]. split; [exact M|]. split; [vm_cast_no_check (eq_refl (@OutOfFuel wst))|].
   apply work_total; [exact S|]. rewrite M. apply Nat.ltb_lt. vm_compute. reflexivity.
 Qed.
-Print Assumptions ex_fit.
-Print Assumptions ex_bound_matters.
 
 (* the hypothesis of compile_total_tokens on the same source: 87 tokens; normal and lint mode, both chunk orders, with and
    without line markers *)
@@ -1522,4 +1498,3 @@ Proof.
   assert (B : List.length (lex nf nf nf (t src1)) < work_fuel) by (rewrite A, work_fuel_prod; lia).
   split; [exact A|]. split; [exact B|]. intros ee optimize mpath. apply compile_total_tokens. exact B.
 Qed.
-Print Assumptions ex_tokens.
